@@ -81,7 +81,13 @@ impl Prop for C11 {
         p.w_dealloc = 6;
         p.w_detach = 6;
         p.flavors = &[Fl::Sync];
+        // truncate exists on unsync::Arena only (it is not part of the trait surface the statement quantifies over)
         strat_a(&p, tier)
+            .prop_map(|mut c| {
+                c.ops.retain(|o| !matches!(o, Op::Truncate { .. }));
+                c
+            })
+            .boxed()
     }
     fn run(case: &CaseA) -> CaseReport {
         // memory() is deliberately not compared: the statement lists offsets, extents, results and
